@@ -717,6 +717,72 @@ pub fn run(c: &Ctx) {
         }
         res
     });
+    // the consumer removes a sibling that was not handed out yet, between two next() calls (as a caller that deletes
+    // while walking, or another process, does): whatever happens to the vanished name, every entry that was there
+    // from the first to the last call is still yielded exactly once and the walk ends
+    {
+        let sb = crate::sandbox::root().join(format!("c08-vanish-{}", std::process::id()));
+        let files = ["a", "b", "c", "d", "e", "f", "s/x", "s/y", "s/z", "t/u/w"];
+        for stdfs in [true, false] {
+            for after in 1..=4usize {
+                for which in 0..3usize {
+                    for sorted in [false, true] {
+                        let (v, root) = if stdfs { (Vfs::stdfs(), sb.to_str().unwrap().to_string()) } else { (Vfs::memfs(), "/vanish".to_string()) };
+                        let _ = v.remove_all(&root);
+                        for f in files {
+                            let p = format!("{}/{}", root, f);
+                            let _ = v.mkdir_p(crate::refpath::parent(&p));
+                            let _ = v.write_all(&p, b"1");
+                        }
+                        c.eval(1);
+                        c.nontrivial(fp(&("vanish", stdfs, after, which, sorted)));
+                        c.class("entry-removed-during-the-walk");
+                        let res = crate::engine::catch(|| -> Result<(), Failure> {
+                            let es = v.entries(&root).map_err(|e| Failure::new("vanish|entries-err", e.to_string()))?;
+                            let es = if sorted { es.sort_by_name() } else { es };
+                            let mut seen: Vec<String> = vec![];
+                            let mut removed: Option<String> = None;
+                            let mut n = 0usize;
+                            for item in es.into_iter() {
+                                n += 1;
+                                if n > 100 {
+                                    return Err(Failure::new("vanish|walk-does-not-end", format!("more than 100 items from a tree of 14 entries; seen {:?}", seen)));
+                                }
+                                if let Ok(e) = item {
+                                    seen.push(e.path().to_string_lossy().replacen(&root, "", 1));
+                                }
+                                if n == after && removed.is_none() {
+                                    let cands: Vec<&str> = files.iter().copied().filter(|f| !seen.iter().any(|s| s.trim_start_matches('/') == *f)).collect();
+                                    if let Some(f) = cands.get(which * cands.len() / 3) {
+                                        let _ = v.remove(format!("{}/{}", root, f));
+                                        removed = Some(f.to_string());
+                                    }
+                                }
+                            }
+                            let mut stable: Vec<String> = vec!["".into(), "/s".into(), "/t".into(), "/t/u".into()];
+                            stable.extend(files.iter().filter(|f| Some(f.to_string()) != removed).map(|f| format!("/{}", f)));
+                            for want in &stable {
+                                let k = seen.iter().filter(|s| *s == want).count();
+                                if k != 1 {
+                                    return Err(Failure::new(
+                                        format!("vanish|stable-entry-yielded-{}-times|{}{}", if k == 0 { "0" } else { "many" }, if stdfs { "stdfs" } else { "memfs" }, if sorted { ",sorted" } else { "" }),
+                                        format!("removed {:?} after item {}: {:?} yielded {} times; items {:?}", removed, after, want, k, seen),
+                                    ));
+                                }
+                            }
+                            Ok(())
+                        });
+                        let res = match res {
+                            Ok(r) => r,
+                            Err(p) => Err(Failure::new("vanish|panic", p)),
+                        };
+                        c.judge("vanish", &json!([stdfs, after, which, sorted]), res);
+                    }
+                }
+            }
+        }
+        let _ = std::fs::remove_dir_all(&sb);
+    }
     crate::sandbox::cleanup();
 }
 
